@@ -15,7 +15,11 @@ SHAPES = [
     ("generic-bound", "pub struct T<A: Copy> { v: A }", "T<i8>", "v", "i8", "T::<i8> { v: s.i8() }", "s.i8()"),
     ("generic-where", "pub struct T<A, B> (core::marker::PhantomData<B>, ) where A: Sized, B: ?Sized;", None, None, None, None, None),
     ("generic-where1", "pub struct T<A> where A: PartialEq + Sized { v: (A, A) }", "T<u8>", "v", "(u8, u8)", "T::<u8> { v: (s.u8(), s.u8()) }", "(s.u8(), s.u8())"),
-    ("lifetime", "pub struct T<'a>(&'a u8);", None, None, None, None, None),
+    # a field that is itself a reference: Target is the reference type, deref() points at the field (not through it)
+    ("ref-static", "pub struct T(&'static u8);", "T", "0", "&'static u8", "T(&ZZ[(s.u8() & 3) as usize])", "&ZZ[(s.u8() & 3) as usize]"),
+    ("ref-lifetime", "pub struct T<'a> { r: &'a u8 }", "T<'static>", "r", "&'static u8", "T::<'static> { r: &ZZ[(s.u8() & 3) as usize] }", "&ZZ[(s.u8() & 3) as usize]"),
+    ("ref-generic", "pub struct T<'a, A>(&'a A);", "T<'static, u8>", "0", "&'static u8", "T::<'static, u8>(&ZZ[(s.u8() & 3) as usize])", "&ZZ[(s.u8() & 3) as usize]"),
+    ("boxed", "pub struct T(Box<u8>);", "T", "0", "Box<u8>", "T(Box::new(s.u8()))", "Box::new(s.u8())"),
     ("boxed-slice", "pub struct T(Box<[u8]>);", "T", "0", "Box<[u8]>", "T(vec![s.u8(), s.u8()].into_boxed_slice())", "vec![s.u8(), s.u8(), s.u8()].into_boxed_slice()"),
     ("raw-ident", "pub struct T { r#type: u8 }", "T", "r#type", "u8", "T { r#type: s.u8() }", "s.u8()"),
     # the type's own where-clause must be kept next to explicit bound(..) arguments (list suffix after `|`)
